@@ -161,6 +161,51 @@ def canon_impl(files, rc, err, out):
     return " ".join(toks)
 
 
+def _outcomes(ctx, files, am, tag):
+    """(request, wild outcome, model outcome, link line, dir) for one abstract input."""
+    d = os.path.join(ctx.scratch, tag)
+    shutil.rmtree(d, ignore_errors=True)
+    line = lm.build_inputs(d, files)
+    out = os.path.join(d, "out.wild")
+    rc, o, e = run_linker("wild", d, line, am, out, threads=2)
+    req = lm.request_line(files, am)
+    return req, canon_impl(files, rc, e, out), canon_model(files, ctx.model_eval([req])[0]), line, d
+
+
+def shrink(ctx, files, am, budget=60):
+    """Greedy minimisation of a model/implementation disagreement: drop files and entries while they still disagree."""
+    import copy
+    cur = copy.deepcopy(files)
+    tries = 0
+    changed = True
+    while changed and tries < budget:
+        changed = False
+        cands = []
+        for k in range(len(cur) - 1, 0, -1):
+            cands.append(("file", k, None))
+        for k in range(len(cur)):
+            for j in range(len(cur[k]["entries"]) - 1, -1, -1):
+                cands.append(("entry", k, j))
+        for kind, k, j in cands:
+            if tries >= budget:
+                break
+            t = copy.deepcopy(cur)
+            if kind == "file":
+                del t[k]
+            else:
+                del t[k]["entries"][j]
+            tries += 1
+            try:
+                req, a, b, _, _ = _outcomes(ctx, t, am, "shrink")
+            except RuntimeError:
+                continue
+            if a != b:
+                cur = t
+                changed = True
+                break
+    return cur
+
+
 def run(ctx):
     r = ctx.rng
     n = 60 if ctx.quick else 1500
@@ -225,5 +270,28 @@ def run(ctx):
             ctx.violation("select:" + reqs[i], f"wild binds differently from GNU ld and lld (which agree): wild={impl[i]} ld/lld={verdicts['ld']}",
                           {"request": reqs[i], "link_line": line, "dir": keep, "wild": impl[i], "ld": verdicts["ld"], "lld": verdicts["lld"], "model": model[i]})
     ctx.cov["oracle_links_checked"] = oracle_checked
+    # Search: minimise the first disagreements and ask the oracles about the minimal input.
+    for (l, a, b) in dis[:2]:
+        i = reqs.index(l)
+        files, line, am, d = inputs[i]
+        small = shrink(ctx, files, am)
+        try:
+            req, wi, mo, line2, d2 = _outcomes(ctx, small, am, "shrunk")
+        except RuntimeError:
+            continue
+        vs = {}
+        for lk in ("ld", "lld"):
+            out = os.path.join(d2, "out." + lk)
+            rc, o, e = run_linker(lk, d2, line2, am, out)
+            vs[lk] = canon_impl(small, rc, e, out)
+        ctx.sample({"minimised_disagreement": req, "wild": wi, "model": mo, "ld": vs["ld"], "lld": vs["lld"]})
+        if vs["ld"] == vs["lld"] and vs["ld"] != wi and not vs["ld"].startswith("err:other") and not fortran_common_region(small):
+            alt = req.replace(":u:", ":s:")
+            if alt != req and canon_model(small, ctx.model_eval([alt])[0]) == vs["ld"]:
+                continue
+            keep = os.path.join(ctx.replay_dir(), f"c02-min-{i}")
+            shutil.copytree(d2, keep, dirs_exist_ok=True)
+            ctx.violation("select-min:" + req, f"minimised input: wild={wi}, GNU ld and lld agree on {vs['ld']} (model of the unchanged code: {mo})",
+                          {"request": req, "link_line": line2, "dir": keep, "wild": wi, "ld": vs["ld"], "lld": vs["lld"], "model": mo})
     for _, _, _, d in inputs:
         shutil.rmtree(d, ignore_errors=True)
